@@ -21,7 +21,7 @@ CHECKS = {
              "random-walks the full vocabulary with random spelling, under the canonical and the extended parser. Each "
              "document is parsed by the real library and TLC judges the projected result (spec/Trace_Doc.tla): no error, "
              "and ingredients, cookware, timers, inline quantities, sections/steps/text/numbers, metadata and servings "
-             "equal to the prediction. The parser itself is also specified as a parser (spec/CookParser.tla, a transcription of src/parser over the tokens of CookLexer; TLC enumerates every string up to a bound over ten kernel alphabets x extension sets, checks the design invariants and prints the predicted events; for whole documents TLC lexes and parses the recorded text itself) and TLC judges the real PullParser events against it (spec/Trace_Parser.tla): clause RecipeReadAsSpecified - an input the specification reads without a diagnostic must be read exactly so (what the events say, not where).",
+             "equal to the prediction; each well-formed random document is judged again in every respelling the generator knows (comments, wraps and blanks between and inside names, CRLF, blank lines, fences) against the same prediction. The parser itself is also specified as a parser (spec/CookParser.tla, a transcription of src/parser over the tokens of CookLexer; TLC enumerates every string up to a bound over ten kernel alphabets x extension sets, checks the design invariants and prints the predicted events; for whole documents TLC lexes and parses the recorded text itself) and TLC judges the real PullParser events against it (spec/Trace_Parser.tla): clause RecipeReadAsSpecified - an input the specification reads without a diagnostic must be read exactly so (what the events say, not where).",
         design="6 (C01), 3.4, 3.5", technique="TLA+ generator+analysis model, TLC exhaustive kernels and simulation, replay into the parser, trace validation",
         note=DOC_NOTE),
     "C02": dict(
@@ -54,7 +54,7 @@ CHECKS = {
              "analysis report and SourceReport::write; TLC then judges every recorded execution (spec/Trace_Parse.tla, "
              "predicates of spec/CookSpans.tla): tokens tile from the documented front-matter offset, every span, "
              "fragment and label in bounds and on character boundaries, fragments equal the input slice, events ordered, "
-             "report renders. Token kinds are compared with the model's prediction as drift. The parser itself is also specified as a parser (spec/CookParser.tla, a transcription of src/parser over the tokens of CookLexer; TLC enumerates every string up to a bound over ten kernel alphabets x extension sets, checks the design invariants and prints the predicted events; for whole documents TLC lexes and parses the recorded text itself) and TLC judges the real PullParser events against it (spec/Trace_Parser.tla): clauses EventsLocatedInOrder, EventsBracketed on the recorded events; exact equality of every span and label with the specification is reported as drift. The inputs of the parser kernels also go through the span recorder under extension subsets that switch single gates (quantity value / unit, modifier, alias and note spans have their own arithmetic).",
+             "report renders. Token kinds are compared with the model's prediction as drift. The parser itself is also specified as a parser (spec/CookParser.tla, a transcription of src/parser over the tokens of CookLexer; TLC enumerates every string up to a bound over ten kernel alphabets x extension sets, checks the design invariants and prints the predicted events; for whole documents TLC lexes and parses the recorded text itself) and TLC judges the real PullParser events against it (spec/Trace_Parser.tla): clauses EventsLocatedInOrder, EventsBracketed on the recorded events; exact equality of every span and label with the specification is reported as drift. The inputs of the parser kernels also go through the span recorder under extension subsets that switch single gates (quantity value / unit, modifier, alias and note spans have their own arithmetic). A family of metadata with located diagnostics joins the corpus: offending front-matter keys behind 0..4 lines ending in 1..4-byte characters with LF and CRLF, and blank-only / padded values of every checked key.",
         design="6 (C04), 3.2", technique="TLA+ lexer model + TLC exhaustive short-string generation + trace validation of recorded spans",
         note=PARSE_NOTE),
     "C05": dict(
@@ -157,7 +157,7 @@ CHECKS = {
              "minutes up under English keys - a converter renaming that too cannot read durations, recorded as an observation)."),
     "C14": dict(
         text="The two block scanners are specified at the level of lines (spec/CookBlocks.tla: which lines start a token "
-             "line given escaped newlines and multi-line block comments, which `>>` lines each scanner turns into entries, "
+             "line given escaped newlines and multi-line block comments, which `>>` lines each scanner turns into entries - comments inside the key or the value included, "
              "front matter switching old-style metadata off) and folded through CookAnalysis!AMeta; TLC checks "
              "MetaScanAgrees on every line sequence up to a bound x {front matter} x {LF, CRLF} under all/no extensions and "
              "prints each document with the map both parses must return. The real parse / parse_metadata pairs for those "
